@@ -81,6 +81,21 @@ def r1(idx, rep, tier):
             okb = False
             detail = f"blank last line: calls {calls}, result {p.result}; documented: only _do_lasts and clear_errors, returns True"
     rep.check(okb, "R3", f"{fi.file}::Matcher.matches blank-last branch", detail, K.where(fi, fi.node))
+    # stop()/skip() fired by a last() on the blank last line end that line like any other: no later component is activated
+    fd, drows = MM.do_lasts_rows(idx, 3 if tier == "quick" else 4)
+    rep.analysed(fd)
+    badd = None
+    for p, activated, fired in drows:
+        if p.result[0] != "return":
+            badd = f"path ends in {p.result}"
+            break
+        halt = next((i for i, e in enumerate(fired) if e != "none"), None)
+        want = [f"e{i}" for i in range(len(activated) if halt is None else halt + 1)]
+        if halt is not None and activated != want:
+            badd = (f"effects fired {fired}: components activated {activated}, documented {want} "
+                    f"(after stop()/skip() fired no later component of the line runs)")
+            break
+    rep.check(badd is None and len(drows) >= 3, "R3", f"{fd.file}::Matcher._do_lasts halts after stop/skip", badd or f"{len(drows)} paths", K.where(fd, fd.node))
     # _do_lasts activates only last() components: interpreted over a component tree
     #   E ── last()                      → activated
     #     ├─ print(…)                    → not activated, searched
